@@ -4,8 +4,13 @@
     events of Model/Lock.v: successful O_CREAT|O_EXCL creation of the lock file of object k
     = KAcq, failed creation = KFail, unlink of the lock file = KRel, every effective mutating
     call on a path below the staged or the main root of object k = KMut.  The checkers run the
-    SAME automaton [wb_run] that Props/C13.v proves to accept every trace of the model
-    (C13_traces_well_bracketed) on the observed list.
+    SAME strict automaton [strict_ok] / [strict_done] (Model/Lock.v: lock-table automaton [wb_run]
+    AND, per operation = per traced command, [one_bracket]: Acq ; Mut* ; Rel and then nothing -
+    exactly one acquire, no mutation before it or after the release, no second acquire) that
+    Props/C13.v proves to accept every trace of the model (C13_traces_strictly_bracketed,
+    C13_complete_traces_strictly_bracketed, C13_one_bracket_per_operation) on the observed list.
+    (The old checkers [trace_balanced] / [trace_prefix_ok] = [wb_run] alone accept a command that
+    releases the lock and takes it again - two brackets - and are kept for comparison only.)
 
     Model side of the two-process experiment: the concrete instance below (objects and keys
     are numbers, the data of an object is the list of tags appended by the steps executed on
@@ -25,6 +30,12 @@ Definition trace_balanced (es : list (ev N)) : bool :=
 (** a run that was killed: well bracketed so far (locks may remain) *)
 Definition trace_prefix_ok (es : list (ev N)) : bool :=
   match wb es with Some _ => true | None => false end.
+
+(** the strict automaton; [ks] = lock key of the object of command 0, 1, ... (tid of the events).
+    A run in which every command returned: no lock held, every command closed (or it made no event at all);
+    a run with a killed command: accepted so far *)
+Definition strict_balanced (ks : list N) (es : list (ev N)) : bool := strict_done N N.eqb ks es.
+Definition strict_prefix_ok (ks : list N) (es : list (ev N)) : bool := strict_ok N N.eqb ks es.
 
 (** number of locks still held after the events *)
 Definition trace_held (es : list (ev N)) : option N :=
